@@ -14,6 +14,8 @@ pub struct RunStats {
     pub sink_ops: u64,
     /// hash of the observable outcome (sink image, outputs) where the engine computes one
     pub outcome_hash: u64,
+    /// the run contained real-thread (uncontrolled) executions: schedule-dependent statistics are not reproducible
+    pub uncontrolled: bool,
     /// fault kinds that actually fired in this run
     pub faults: BTreeMap<String, u64>,
     pub probes: BTreeMap<String, u64>,
